@@ -76,6 +76,7 @@ structure Config where
   idleTimeout : Option Nat := none     -- ms
   maxIdle     : Nat := 32
   cap         : Bool := true           -- `continue_after_preemption`
+  lax         : Bool := false          -- the connection type's `is_open()` ignores readiness (still busy = open)
 deriving Repr, DecidableEq
 
 structure State where
@@ -116,9 +117,10 @@ deriving Repr, DecidableEq
 def canShare (s : State) (c : ConnId) : Bool :=
   match s.conns c with | some k => k.kind == .h2 | none => false
 
-/-- `PoolableConnection::is_open` (hyper's `is_ready`): open and not busy. -/
+/-- `PoolableConnection::is_open`: for hyperdriver's own `HttpConnection` this is hyper's `is_ready`
+    (open and not busy); a connection type may also report just "not closed" (`lax`). -/
 def isOpenC (s : State) (c : ConnId) : Bool :=
-  match s.conns c with | some k => k.isOpen && !k.busy | none => false
+  match s.conns c with | some k => k.isOpen && (s.cfg.lax || !k.busy) | none => false
 
 /-- `TokenMap::insert` -/
 def tokenOf (s : State) (k : KeyId) : State × Token :=
